@@ -5,6 +5,7 @@ import (
 	"encoding/json"
 	"fmt"
 	"os"
+	"os/signal"
 	"path/filepath"
 	"runtime/pprof"
 	"sort"
@@ -148,6 +149,143 @@ func properties() map[string]*PropertySpec {
 		Bounds: []string{"every int64 value of Language"},
 		Stubs:  []string{stubStr},
 	}
+	ps["C04"] = &PropertySpec{ID: "C04", Level: "other",
+		Instances: func(tier string) []*Instance {
+			return []*Instance{{Harness: "H_C04", Lang: 2, MaxWitnesses: 1}}
+		},
+		Bounds:  []string{"m, p: arbitrary opaque strings (no bound on content or length) for the unsat direction"},
+		Outside: []string{"the insides of NFKD and PBKDF2-HMAC-SHA512 (stubs with contracts)", "counterexamples are concretised from a pool of spelled strings"},
+		Stubs:   []string{stubNFKD, stubK},
+		Explain: "MnemonicToSeed is executed symbolically from its SSA with the two arguments as opaque text; the solver/structural congruence decides that the call it makes equals K(bytes(N(m)), bytes(\"mnemonic\"++N(p)), 2048, 64, sha512.New) argument by argument, that no branch depends on m (one path), and that two calls return distinct objects. The repository's share of this property is one line of wiring, so the solver's part is thin; the dependency's behaviour is a stated assumption, kept honest by native replays against x/crypto/pbkdf2 on a pool of strings.",
+	}
+	ps["C11"] = &PropertySpec{ID: "C11", Level: "other",
+		Instances: func(tier string) []*Instance {
+			out := []*Instance{{Harness: "H_C11", Lang: 2, MaxWitnesses: 1}}
+			ns := []int64{12}
+			if tier == "thorough" {
+				ns = sizesN
+			}
+			for _, f := range []int64{1, 2, 3, 5} {
+				out = append(out, instLS("H_C11_spelled", allLangs(), ns, f)...)
+			}
+			return out
+		},
+		Bounds:  []string{"(a) any two (m,p) pairs with equal NFKD forms, opaque text", "(b) sentences of canonical words (all indices symbolic) respelled in NFC/NFD/NFKC/full-width, U+0020 or U+3000 separators; quick: 12 words, thorough: 12..24"},
+		Outside: []string{"the insides of NFKD and PBKDF2", "mixed spellings within one sentence"},
+		Stubs:   []string{stubNFKD, stubK},
+		Explain: "Same scheme as C04 on pairs of inputs: results are compared as uninterpreted K-terms modulo the NFKD contract; the spelled-variant instances lift the real NFKD/NFC/NFD/NFKC/width tables over all 2048 entries of each list so the word index stays symbolic.",
+	}
+	ps["C10"] = &PropertySpec{ID: "C10", Level: "model_checking",
+		Instances: func(tier string) []*Instance {
+			var out []*Instance
+			if tier == "thorough" {
+				out = instLS("H_C10_pre", allLangs(), counts0to27())
+			} else {
+				out = instLS("H_C10_pre", []int64{2, 5, 6}, []int64{0, 1, 11, 12, 13, 15, 18, 21, 24, 25})
+			}
+			ns := []int64{12}
+			if tier == "thorough" {
+				ns = sizesN
+			}
+			for _, f := range []int64{1, 2, 3, 5} {
+				out = append(out, instLS("H_C10_spelled", allLangs(), ns, f)...)
+			}
+			return out
+		},
+		Bounds:  []string{"(a) any two strings with the same NFKD token sequence (tokens as in C03)", "(b) valid sentences of canonical words (indices symbolic) respelled in NFC/NFD/NFKC/full-width with U+0020 or U+3000; quick 12 words, thorough 12..24"},
+		Outside: []string{"raw strings whose normal form gains separators are covered by (a) only", "mixed spellings within one sentence"},
+		Stubs:   []string{stubSHA, stubBig, stubStr, stubNFKD, stubOnce},
+	}
+	ps["C06"] = &PropertySpec{ID: "C06", Level: "model_checking",
+		Instances: func(tier string) []*Instance {
+			var out []*Instance
+			if tier == "thorough" {
+				for _, l := range []int64{2, 5} {
+					for _, n := range sizesN {
+						out = append(out, &Instance{Harness: "H_C06", Args: []int64{l, n, 6}, Lang: int(l), MaxWitnesses: 2})
+					}
+				}
+				out = append(out, &Instance{Harness: "H_C06", Args: []int64{2, 12, 17}, Lang: 2, MaxWitnesses: 2})
+				out = append(out, instLS("H_C06", []int64{0, 1, 3, 4, 6, 7, 8, 9}, sizesN, 3)...)
+			} else {
+				out = instLS("H_C06", []int64{2, 5}, sizesN, 4)
+				out = append(out, instLS("H_C06", []int64{0, 1, 3, 4, 6, 7, 8, 9}, []int64{12, 24}, 2)...)
+			}
+			return out
+		},
+		Bounds:  []string{"word count n in {12,15,18,21,24}", "at most R Read calls per NewMnemonic (quick R=4 for English/Japanese, R=2 others; thorough R=6, R=17 = every 1-byte fragmentation for n=12)", "each Read: symbolic fragment size 0..len(p), symbolic outcome nil/io.EOF/io.ErrUnexpectedEOF/other, bytes may accompany an error", "io.ReadFull / io.ReadAtLeast executed from their real SSA"},
+		Outside: []string{"sources needing more than R reads (paths end in an assumption)", "readers violating the io.Reader contract (n > len(p), n < 0)"},
+		Stubs:   []string{stubSHA, stubBig, stubStr},
+	}
+	ps["C07"] = &PropertySpec{ID: "C07", Level: "other",
+		Instances: func(tier string) []*Instance { return instLS("H_C07", allLangs(), sizesN) },
+		Bounds:    []string{"every language and accepted word count, from the post-init state"},
+		Outside:   []string{"statistics of the OS source", "other packages assigning the variable (it is unexported)"},
+		Stubs:     []string{stubRand, stubSHA, stubBig, stubStr},
+		Post:      c07Post,
+		Explain:   "Package init and NewMnemonic are executed symbolically with crypto/rand.Reader as an opaque object whose Read yields fresh symbolic bytes: the solver decides that the sentence equals the BIP39 encoding of exactly those 4n/3 bytes (nothing else mixed in); object identity of the source variable with crypto/rand.Reader after init and after the call is structural; the write log of every explored path of every exported function must not contain the source variable.",
+	}
+	ps["C08"] = &PropertySpec{ID: "C08", Level: "model_checking",
+		Instances: func(tier string) []*Instance {
+			var out []*Instance
+			for _, l := range allLangs() {
+				out = append(out, &Instance{Harness: "H_C08", Args: []int64{l}, Lang: int(l), MaxWitnesses: 2})
+			}
+			return out
+		},
+		Bounds:  []string{"10 languages x every index 0..2047 (symbolic), observed through NewMnemonicByEntropy and CheckMnemonic", "golden lists = /verif/golden (digests in SHA256SUMS; english matches the published upstream digest)"},
+		Outside: []string{"upstream cannot be re-fetched offline: a defect already present in the pinned lists would be invisible"},
+		Stubs:   []string{stubSHA, stubBig, stubStr, stubNFKD, stubOnce},
+		Post:    c08Post,
+	}
+	ps["C13"] = &PropertySpec{ID: "C13", Level: "model_checking",
+		Instances: func(tier string) []*Instance {
+			var out []*Instance
+			if tier == "thorough" {
+				out = instLS("H_C13_entropy", allLangs(), sizesL, 2)
+				out = append(out, instLS("H_C13_check", allLangs(), []int64{11, 12, 15, 18, 21, 24}, 2)...)
+			} else {
+				out = instLS("H_C13_entropy", allLangs(), []int64{16}, 1)
+				out = append(out, instLS("H_C13_check", allLangs(), []int64{12}, 1)...)
+			}
+			out = append(out, &Instance{Harness: "H_C13_seed", Lang: 2, MaxWitnesses: 1})
+			return out
+		},
+		Bounds:  []string{"history = up to two earlier first uses of arbitrary languages (symbolic, incl. none/unsupported) then the call, then a second call", "plus footprint induction: every path of every exported call writes only the once/map pair of its own language", "sizes: quick 16-byte entropy / 12 tokens, thorough all sizes"},
+		Outside: []string{"histories are covered through the footprint argument, not enumerated"},
+		Stubs:   []string{stubSHA, stubBig, stubStr, stubNFKD, stubOnce, stubK},
+		Post:    c13Post,
+	}
+	ps["C14"] = &PropertySpec{ID: "C14", Level: "model_checking", Panics: true,
+		Instances: func(tier string) []*Instance {
+			out := []*Instance{
+				{Harness: "H_C14_String", Lang: 2, MaxWitnesses: 2},
+				{Harness: "H_C14_Seed", Lang: 2, MaxWitnesses: 1},
+			}
+			ns := []int64{0, 1, 11, 12, 15, 24, 25}
+			if tier == "thorough" {
+				ns = counts0to27()
+			}
+			for _, sel := range []int64{0, 1, 2, 3, 4, 5, 6, 7, 8, 9, -1} {
+				lang := int(sel)
+				if sel < 0 {
+					lang = 2
+				}
+				out = append(out, &Instance{Harness: "H_C14_Entropy", Args: []int64{sel}, Lang: lang, MaxWitnesses: 1})
+				out = append(out, &Instance{Harness: "H_C14_New", Args: []int64{sel, 2}, Lang: lang, MaxWitnesses: 1})
+				for _, n := range ns {
+					if tier != "thorough" && sel >= 0 && sel != 2 && sel != 5 && n != 12 && n != 24 {
+						continue
+					}
+					out = append(out, &Instance{Harness: "H_C14_Check", Args: []int64{sel, n}, Lang: lang, MaxWitnesses: 1})
+				}
+			}
+			return out
+		},
+		Bounds:  []string{"Language: every int64", "word count: every int64", "entropy: every length 0..40 with symbolic contents", "sentences: token sequences of n tokens (quick n in {0,1,11,12,15,24,25}, thorough 0..27)", "reader: <=2 reads with symbolic fragment and failure", "every index, slice, nil-map, nil-deref, division, shift, type-assertion and big.Int precondition on every path is an SMT obligation"},
+		Outside: []string{"NFKD and PBKDF2 assumed total and terminating on every byte string", "huge inputs (memory exhaustion)"},
+		Stubs:   []string{stubSHA, stubBig, stubStr, stubNFKD, stubOnce, stubK},
+	}
 	return ps
 }
 
@@ -166,7 +304,7 @@ type KnownFinding struct {
 }
 
 func loadKnown() []KnownFinding {
-	f, err := os.Open(filepath.Join(verifDir(), "known_findings.jsonl"))
+	f, err := os.Open(filepath.Join(verifDir(), "known_findings.txt"))
 	if err != nil {
 		return nil
 	}
@@ -176,13 +314,27 @@ func loadKnown() []KnownFinding {
 	sc.Buffer(make([]byte, 1<<20), 1<<20)
 	for sc.Scan() {
 		l := strings.TrimSpace(sc.Text())
-		if l == "" || strings.HasPrefix(l, "#") {
-			continue
+		if !strings.HasPrefix(l, "known:") {
+			continue // comments and "fixed:" entries suppress nothing
 		}
 		var k KnownFinding
-		if json.Unmarshal([]byte(l), &k) == nil {
-			out = append(out, k)
+		k.Status = "known"
+		rest := strings.TrimSpace(strings.TrimPrefix(l, "known:"))
+		for _, fld := range strings.Fields(rest) {
+			if strings.HasPrefix(fld, "property=") {
+				k.Property = strings.TrimPrefix(fld, "property=")
+			}
 		}
+		if i := strings.Index(rest, "match="); i >= 0 {
+			dec := json.NewDecoder(strings.NewReader(rest[i+6:]))
+			if err := dec.Decode(&k.Match); err != nil {
+				continue
+			}
+			k.What = strings.TrimSpace(rest[i+6+int(dec.InputOffset()):])
+		} else {
+			continue
+		}
+		out = append(out, k)
 	}
 	return out
 }
@@ -384,6 +536,18 @@ func (c *CheckRun) judge() {
 	if len(pend)+len(wit) == 0 {
 		return
 	}
+	// findings that involve opaque text or "any spelling" inputs are replayed in several concrete spellings
+	{
+		var more []pending
+		for _, p := range pend {
+			for _, vals := range spellingVariants(p.f.Values) {
+				v := *p.vec
+				v.Vals = vals
+				more = append(more, pending{p.inst, p.f, &v})
+			}
+		}
+		pend = append(pend, more...)
+	}
 	var vecs []*Vector
 	for _, p := range pend {
 		vecs = append(vecs, p.vec)
@@ -398,8 +562,13 @@ func (c *CheckRun) judge() {
 	}
 	os.MkdirAll(filepath.Join(verifDir(), "evidence", "replays"), 0755)
 	nviol := 0
+	doneFinding := map[*Finding]bool{}
+	lastMiss := map[*Finding]string{}
 	for i, p := range pend {
 		r := res[i]
+		if doneFinding[p.f] {
+			continue
+		}
 		confirmed := false
 		if p.f.Kind == "panic" {
 			confirmed = r.Panic != ""
@@ -411,9 +580,10 @@ func (c *CheckRun) judge() {
 			}
 		}
 		if !confirmed {
-			c.Inconcl = append(c.Inconcl, fmt.Sprintf("%s: solver model for %q does not reproduce natively (failures=%v panic=%q assume_failed=%v): encoding or stub imprecise here", p.inst.Key(), p.f.Label, r.Failures, r.Panic, r.Assumed))
+			lastMiss[p.f] = fmt.Sprintf("%s: solver model for %q does not reproduce natively (failures=%v panic=%q assume_failed=%v): encoding or stub imprecise here", p.inst.Key(), p.f.Label, r.Failures, r.Panic, r.Assumed)
 			continue
 		}
+		doneFinding[p.f] = true
 		isKnown := false
 		for ki := range known {
 			if known[ki].matches(c.Spec.ID, p.inst, p.f) {
@@ -424,6 +594,10 @@ func (c *CheckRun) judge() {
 		if isKnown {
 			continue
 		}
+		if nviol >= 12 {
+			c.Extra["violations_not_written"] = "more than 12 confirmed violations; only the first 12 replay files are written"
+			continue
+		}
 		nviol++
 		path := filepath.Join(verifDir(), "evidence", "replays", fmt.Sprintf("%s-%d.json", c.Spec.ID, nviol))
 		p.vec.Note = fmt.Sprintf("native replay: failures=%v panic=%q", r.Failures, r.Panic)
@@ -432,6 +606,11 @@ func (c *CheckRun) judge() {
 		c.Violations = append(c.Violations, path)
 		if len(c.Samples) < 6 {
 			c.Samples = append(c.Samples, map[string]interface{}{"kind": "violation", "harness": p.inst.Harness, "args": p.inst.Args, "label": p.f.Label, "inputs": p.f.Values})
+		}
+	}
+	for f, m := range lastMiss {
+		if !doneFinding[f] {
+			c.Inconcl = append(c.Inconcl, m)
 		}
 	}
 	for i, p := range wit {
@@ -496,6 +675,10 @@ func (c *CheckRun) report(wall float64) int {
 		obl += i.Obl
 		dis += i.Discharged
 		paths += i.Paths
+		if c.Spec.Panics {
+			obl += i.PanicObl
+			dis += i.PanicObl - i.panicFindings() - i.Inconcl
+		}
 	}
 	fmt.Printf("property=%s tier=%s instances=%d paths=%d obligations=%d discharged=%d violations=%d inconclusive=%d validated_witnesses=%d wall=%.1fs\n",
 		id, c.Cfg.Tier, len(c.Insts), paths, obl, dis, len(c.Violations), len(c.Inconcl), c.Validated, wall)
@@ -587,8 +770,8 @@ func writeEvidence(c *CheckRun, wall float64) {
 		"transitions":                   max1(steps),
 		"traces_validated_against_impl": c.Validated,
 		"samples":                       samples,
-		"obligations":                   obl + c.StructObl,
-		"discharged":                    dis + c.StructObl - len(c.StructFail),
+		"obligations":                   obl + c.StructObl + panicOblIf(c, panicObl),
+		"discharged":                    dis + c.StructObl - len(c.StructFail) + panicOblIf(c, panicObl-panicFound(c)),
 		"discharged_by_constant_folding": triv,
 		"panic_obligations":             panicObl,
 		"inconclusive_obligations":      inc,
@@ -661,6 +844,9 @@ func main() {
 		f, _ := os.Create(pf)
 		pprof.StartCPUProfile(f)
 		defer pprof.StopCPUProfile()
+		sig := make(chan os.Signal, 1)
+		signal.Notify(sig, os.Interrupt)
+		go func() { <-sig; pprof.StopCPUProfile(); os.Exit(130) }()
 	}
 	switch os.Args[1] {
 	case "check":
@@ -707,6 +893,43 @@ func main() {
 		}
 		rc := runCheck(spec, cfg)
 		pprof.StopCPUProfile()
+		os.Exit(rc)
+	case "run":
+		// debugging: verif run <harness> <lang> [args...]  (env VERIF_PANICS=1 to check panics)
+		var args []int64
+		for _, a := range os.Args[3:] {
+			v, _ := strconv.ParseInt(a, 10, 64)
+			args = append(args, v)
+		}
+		lang := 2
+		if len(args) > 0 && args[0] >= 0 && args[0] <= 9 {
+			lang = int(args[0])
+		}
+		if l := os.Getenv("VERIF_LANG"); l != "" {
+			lang, _ = strconv.Atoi(l)
+		}
+		h := os.Args[2]
+		spec := &PropertySpec{ID: "DEBUG", Level: "model_checking", Panics: os.Getenv("VERIF_PANICS") != "",
+			Instances: func(string) []*Instance {
+				return []*Instance{{Harness: h, Args: args, Lang: lang, MaxWitnesses: 2}}
+			}}
+		solvers := []string{"z3-new"}
+		if s := os.Getenv("VERIF_SOLVERS"); s != "" {
+			solvers = strings.Split(s, ",")
+		}
+		to := 60000
+		if t := os.Getenv("VERIF_TIMEOUT_MS"); t != "" {
+			to, _ = strconv.Atoi(t)
+		}
+		rc := runCheck(spec, Config{Tier: "quick", Workers: 1, Timeout: to, Solvers: solvers})
+		pprof.StopCPUProfile()
+		b, _ := os.ReadFile(filepath.Join(verifDir(), "evidence", "DEBUG.json"))
+		var ev map[string]interface{}
+		json.Unmarshal(b, &ev)
+		cov := ev["coverage"].(map[string]interface{})
+		fmt.Println("solvers:", cov["solvers"])
+		fmt.Println("samples:", cov["samples"])
+		os.Remove(filepath.Join(verifDir(), "evidence", "DEBUG.json"))
 		os.Exit(rc)
 	case "replay":
 		if len(os.Args) < 3 {
@@ -758,4 +981,119 @@ func replayCmd(path string) int {
 func selfcheck() int {
 	fmt.Println("selfcheck: ok (placeholder)")
 	return 0
+}
+
+
+// ---------------------------------------------------------------- structural post-checks
+
+func (c *CheckRun) structural(ok bool, what string) {
+	c.StructObl++
+	if !ok {
+		c.StructFail = append(c.StructFail, what)
+	}
+}
+
+func c07Post(c *CheckRun) {
+	for _, i := range c.Insts {
+		for w := range i.Writes {
+			if readerName != "" && strings.Contains(w, "."+readerName) {
+				c.structural(false, fmt.Sprintf("%s: a path writes the randomness source variable %s", i.Key(), w))
+			}
+		}
+	}
+	c.structural(readerName != "", "no package-level randomness source variable found in the repository package")
+}
+
+func c08Post(c *CheckRun) {}
+
+func c13Post(c *CheckRun) {}
+
+
+var opaquePool = []string{"ｆｕｌｌ　ｗｉｄｔｈ", "caf\u00e9 \u212b", "e\u0301\u0323 a\u0323\u0301", "\u00a0x\u2003y", "\u3392\ufb01\u00bd", "\u0301\u0323lead", "\ud55c\uae00 \u304c\u30ac", "plain ascii", strings.Repeat("\u00e9\u3000", 80)}
+
+// spellingVariants: alternative concrete choices for opaque-text and spelling inputs of a counterexample.
+func spellingVariants(vals map[string]interface{}) []map[string]interface{} {
+	var opq, forms []string
+	for k, v := range vals {
+		if strings.HasSuffix(k, ".form") {
+			forms = append(forms, k)
+		} else if _, ok := v.(string); ok && !isTokenName(k) {
+			opq = append(opq, k)
+		}
+	}
+	sort.Strings(opq)
+	sort.Strings(forms)
+	if len(opq) == 0 && len(forms) == 0 {
+		return nil
+	}
+	var out []map[string]interface{}
+	clone := func() map[string]interface{} {
+		m := map[string]interface{}{}
+		for k, v := range vals {
+			m[k] = v
+		}
+		return m
+	}
+	if len(opq) > 0 {
+		for i := range opaquePool {
+			m := clone()
+			for k, name := range opq {
+				m[name] = opaquePool[(i+k)%len(opaquePool)]
+			}
+			out = append(out, m)
+		}
+	}
+	if len(forms) > 0 {
+		for f := 0; f < 6; f++ {
+			m := clone()
+			for _, name := range forms {
+				m[name] = f
+			}
+			out = append(out, m)
+			m2 := clone()
+			for k, name := range forms {
+				m2[name] = (f + k + 1) % 6
+			}
+			out = append(out, m2)
+		}
+	}
+	return out
+}
+
+func isTokenName(k string) bool {
+	if len(k) < 2 || (k[0] != 't' && k[0] != 'w') {
+		return false
+	}
+	for _, c := range k[1:] {
+		if c < '0' || c > '9' {
+			return false
+		}
+	}
+	return true
+}
+
+
+func (i *Instance) panicFindings() int {
+	n := 0
+	for _, f := range i.Findings {
+		if f.Kind == "panic" {
+			n++
+		}
+	}
+	return n
+}
+
+func panicOblIf(c *CheckRun, n int) int {
+	if c.Spec.Panics {
+		return n
+	}
+	return 0
+}
+
+func panicFound(c *CheckRun) int {
+	n := 0
+	for _, i := range c.Insts {
+		n += i.panicFindings()
+	}
+	return n
 }
